@@ -156,6 +156,7 @@ REVERTS: list[tuple[str, str, list[str]]] = [
     ("revert-F19", "fix: read char bit fields through their own storage type", ["C03.R17"]),
     ("revert-F22", "fix: start a new compiled read block when a field offset moves backwards", ["C03.R18"]),
     ("revert-F20", "fix: keep array sizes that name an earlier field", ["C07.R11", "C10.R8"]),
+    ("revert-F23", "fix: do not align the stream after a structure without fields", ["C09.R5", "C09.R6", "C03.R19"]),
 ]
 
 # behaviour-preserving textual twins (id, file, old, new)
